@@ -346,6 +346,17 @@ type ServerEvent struct {
 type LimiterPlan struct {
 	Spec   LimiterSpec `json:"spec"`
 	Events []LimEvent  `json:"events"`
+	// Bursts: after the events, K evaluations for one address in the same
+	// instant from K goroutines (first contact of a subnet, or first contact
+	// after minutes of silence).
+	Bursts []LimBurst `json:"bursts,omitempty"`
+}
+
+type LimBurst struct {
+	AtUs int64  `json:"at_us"`
+	Addr string `json:"addr"`
+	K    int    `json:"k"`
+	N    int    `json:"n"`
 }
 
 type LimEvent struct {
